@@ -219,12 +219,23 @@ def family(name: str, tier: str = "quick", seed: int = 0) -> List[dict]:
                 add("xpath-child", "child-child-exists", Q("exists", p, "v", None, eq(xp(V("v"), [(c, None), (d, None)]), ld), None))
                 add("xpath-desc", "child-then-descendant", eq(xp(NT(p), [(c, None)], [(d, None)]), ld))
                 add("xpath-desc", "child-then-descendant-exists", Q("exists", p, "v", None, eq(xp(V("v"), [(c, None)], [(d, None)]), ld), None), cls="xpath-desc:under-existential-quantifier", combo=False)
+                # two XPath expressions on DIFFERENT nested base variables with the same multi-element first segment:
+                # their generated intermediate variables must not be identified
+                add("xpath-desc", "child-then-descendant-two-nested-bases",
+                    Q("forall", p, "va", None, Q("forall", p, "vb", None,
+                      Or(eq(xp(V("va"), [(c, None)], [(d, None)]), ld), Not(eq(xp(V("vb"), [(c, None)], [(d, None)]), ld))), None), None),
+                    cls="xpath-desc:two-nested-bases", combo=False)
         for d in prof.desc[p][-n_desc:]:
             ld = lit(d)
             add("xpath-desc", "free", eq(xp(NT(p), [], [(d, None)]), ld))
             add("xpath-desc", "free-negated", Not(eq(xp(NT(p), [], [(d, None)]), ld)))
             add("xpath-desc", "named-forall", Q("forall", p, "v", None, eq(xp(V("v"), [], [(d, None)]), ld), None))
             add("xpath-desc", "named-exists", Q("exists", p, "v", None, eq(xp(V("v"), [], [(d, None)]), ld), None), cls="xpath-desc:under-existential-quantifier", combo=False)
+            # `..` on the variable of an OUTER universal quantifier, used below an inner existential one: the generated
+            # universal quantifier belongs directly below the binder of the base variable, above the existential
+            add("xpath-desc", "outer-forall-base-under-inner-exists",
+                Q("forall", p, "v", None, Q("exists", d, "w", None, eqt(xp(V("v"), [], [(d, None)]), V("w")), None), None),
+                cls="xpath-desc:outer-base-under-inner-exists", combo=False)
             add("xpath-desc", "nameless-exists", Q("exists", p, None, None, eq(xp(NT(p), [], [(d, None)]), ld), None), cls="xpath-desc:under-existential-quantifier", combo=False)
             add("xpath-desc", "predicate", Pred("inside", (xp(NT(p), [], [(d, None)]), NT(p))), cls="xpath:free-head-also-used-alone", combo=False)
             for e, _ in prof.children[d][:1]:
